@@ -9,7 +9,9 @@ EXPL = ("R03.1 weight flow: every count written by the observation writer derive
         "format_with_multiplicity through the per-call writer down to that writer; R03.2 the (definition buffer, value buffer) pair "
         "handed to the metric writer has a single owner on each path; R03.3 on the skipped path the value buffer is rolled back to a "
         "snapshot taken before the write and no definition is written; on the NoMetric path no definition is written; R03.4 both "
-        "emission branches of finish replicate the directive for every additional namespace; R03.5 the buffers that carry the dimension "
+        "emission branches of finish replicate the directive for every additional namespace; R03.6 a record (global or per dimension set) is skipped only on "
+        "paths through the 'its value buffer is empty' outcome - the value buffer being the one the routing site hands to the metric writer "
+        "as value target - and every successful emission performs at least one write; R03.5 the buffers that carry the dimension "
         "sets of the directive (global dimension array, per-dimension-set records) are rebuilt from the entry's / the configured sets in "
         "every call (reset-before-use, same analysis as R14.2), so a record never declares another entry's dimension sets. Not decided: number formatting, means, "
         "timestamps, cartesian dimension sets (runtime values).")
@@ -209,6 +211,132 @@ def run(ctx):
             starts += [x for x in o if x[0] == "const"]
         ctx.check(len(rng) >= len(writes) and all(x[1] == ("int", 1) for x in starts if x[1][0] == "int"), "R03.4", fnkey(b) + "#replicates-namespaces[1..]", loc(b),
                   "replication does not iterate namespaces[1..] in every branch (ranges found: %d, starts %s)" % (len(rng), starts))
+    # ------------------------------------------------------------------ R03.6 a record is suppressed only when it carries no value
+    # slots filled from the routing site: which field is the *value* buffer of the global record and of a per-set record
+    val_global, val_set = set(), set()
+    for b in mets:
+        pr = Prov(b)
+        for c in b.calls():
+            cbs = [sb for sb in local_callee_bodies(F, c) if sb.crate == CR and sb in wms]
+            if not cbs:
+                continue
+            cb = cbs[0]
+            vi = [i for i in range(1, cb.arg_count + 1) if "PrefixedStringBuf" in cb.locals[i]["ty"]][0]
+            ai = vi - 1 if len(c.args) == cb.arg_count else None
+            if ai is None:
+                continue
+            for x in pr.operand(c.args[ai]):
+                if x[0] == "arg" and len(x[2]) >= 2:
+                    val_global.add(tuple(x[2][-2:]))
+                elif x[0] == "callf" and x[2]:
+                    val_set.add(x[2][-1])
+    ctx.check(len(val_global) == 1 and len(val_set) == 1, "R03.6", "value-buffer-slots", "metrique-writer-format-emf/src/emf.rs",
+              "could not identify the value buffer of the global record / of a per-set record at the routing site (%s / %s)" % (sorted(val_global), sorted(val_set)),
+              "value buffers: global %s, per dimension set .%s" % (sorted(val_global), sorted(val_set)))
+    for b in fin:
+        pr = Prov(b)
+        key = fnkey(b)
+        writes = [c for c in b.calls() if c.name == "write_all_vectored"]
+        succ_exit = [i for i in b.live_blocks() for st in b.stmts(i) if st["k"] == "assign" and st["lhs"]["l"] == 0 and not st["lhs"].get("p")
+                     and st["rv"]["k"] == "agg" and st["rv"].get("variant") == "Ok"]
+        ctx.floor("R03.6", "success exits of the emission body", len(succ_exit), 1)
+
+        defs = b.defs()
+
+        def true_edges(src):
+            """(switch block, target taken when bool local `src` is true), for every switch whose discriminant is `src` itself or a
+            copy / negation chain of it"""
+            out = []
+            for i in b.live_blocks():
+                t = b.term(i)
+                if t["k"] != "switch" or t.get("ty") != "bool":
+                    continue
+                sl, neg, hops = op_local(t["discr"]), False, 0
+                while sl is not None and sl != src and hops < 6:
+                    dd = [d for d in defs.get(sl, []) if not b.is_cleanup(d[1])]
+                    if len(dd) != 1 or dd[0][0] != "assign":
+                        break
+                    rv = dd[0][3]["rv"]
+                    if rv["k"] == "use":
+                        sl = op_local(rv["op"])
+                    elif rv["k"] == "unop" and rv["op"] == "Not":
+                        sl, neg = op_local(rv["a"]), not neg
+                    else:
+                        break
+                    hops += 1
+                if sl == src:
+                    tg = {v: tb for v, tb in t["targets"]}
+                    tt = tg.get(0, t["otherwise"] if 1 in tg else None) if neg else tg.get(1, t["otherwise"] if 0 in tg else None)
+                    if tt is not None:
+                        out.append((i, tt))
+            return out
+
+        def bool_edges(c):
+            return true_edges(c.dest["l"]) if not c.dest.get("p") else []
+
+        def reach(start, avoid_blocks, avoid_edges):
+            seen, st = {start}, [start]
+            while st:
+                x = st.pop()
+                for y in b.succ(x):
+                    if y in seen or y in avoid_blocks or (x, y) in avoid_edges:
+                        continue
+                    seen.add(y)
+                    st.append(y)
+            return seen
+
+        empties = [c for c in b.calls() if c.name == "is_empty" and "PrefixedStringBuf" in (c.def_ or "")]
+        ctx.floor("R03.6", "emptiness guards on record buffers", len(empties), 2)
+        e_global, e_set = set(), set()
+        for c in empties:
+            o = pr.operand(c.args[0])
+            ga = {tuple(x[2][-2:]) for x in o if x[0] == "arg" and len(x[2]) >= 2}
+            sa = {x[2][-1] for x in o if x[0] == "callf" and x[2]}
+            if ga and ga <= val_global and not sa:
+                e_global.update(bool_edges(c))
+            if sa and sa <= val_set and not ga:
+                e_set.update(bool_edges(c))
+        n_g = n_s = 0
+        for w in writes:
+            if w.bb in b.reachable_after(w.bb):
+                # a per-set record: from the start of an iteration back to the loop head without the write
+                heads = [c for c in b.calls() if c.is_trait_method("Iterator", "next") and w.bb in b.reachable_after(c.bb) and c.bb in b.reachable_after(w.bb)
+                         and dominates(b, c.bb, w.bb, b.dominators())]
+                # the loop the write belongs to: its head is reached again from the write without passing another candidate head
+                heads = [h for h in heads if h.bb in b.reachable_after(w.bb, avoid=[o.bb for o in heads if o is not h])]
+                for h in heads:
+                    n_s += 1
+                    r = reach(h.target, {w.bb}, e_set)
+                    ctx.check(h.bb not in r, "R03.6", key + "#per-set-record-skipped-only-when-valueless", loc(b, w.bb),
+                              "an iteration over the dimension sets can skip writing the record on a path that does not pass the 'value buffer (.%s) is "
+                              "empty' outcome: a record holding values (for example only no-metric values, which declare nothing) is dropped" % sorted(val_set),
+                              "every write-free iteration passes the empty-value-buffer edge")
+            else:
+                n_g += 1
+                r = reach(0, {w.bb}, e_global)
+                ctx.check(not (r & set(succ_exit)), "R03.6", key + "#global-record-skipped-only-when-valueless", loc(b, w.bb),
+                          "the record without per-metric dimensions can be skipped on a successful path that does not pass the 'value buffer %s is empty' "
+                          "outcome: values routed to it (for example no-metric values, which leave the directive empty) would appear nowhere" % sorted(val_global),
+                          "every successful path around the write passes the empty-value-buffer edge")
+        ctx.floor("R03.6", "global record writes", n_g, 1)
+        ctx.floor("R03.6", "per-set record writes", n_s, 1)
+        # life sign: every successful path performs at least one write (string properties of an entry without metrics appear somewhere)
+        wb = {w.bb for w in writes}
+        flag_true_edges = set()
+        for l, ds in defs.items():
+            if b.local_ty(l) != "bool" or not b.local_name(l):
+                continue
+            if not all(k == "assign" and not n["lhs"].get("p") and n["rv"]["k"] == "use" and "bool" in (op_const(n["rv"]["op"]) or {}) for k, bb_, j, n in ds):
+                continue
+            trues = [bb_ for k, bb_, j, n in ds if op_const(n["rv"]["op"])["bool"]]
+            if not trues or not all(bb_ in wb or b.must_pass(wb, start=bb_, exits=succ_exit) for bb_ in trues):
+                continue
+            flag_true_edges.update(true_edges(l))
+        r = reach(0, wb, flag_true_edges)
+        ctx.check(not (r & set(succ_exit)), "R03.6", key + "#every-success-writes-a-record", loc(b),
+                  "a successful path through the emission writes no record at all (a flag that is only set next to a write was taken as false on "
+                  "it): an entry without routed metrics would lose its string properties and timestamp",
+                  "no write-free successful path (write-witness flag edges: %d)" % len(flag_true_edges))
     # ------------------------------------------------------------------ R03.5 dimension sets rebuilt per call
     import rules.c14 as c14
     before = len(ctx.instances)
